@@ -1665,6 +1665,8 @@ struct MediumCtl {
 	seek_faults: std::sync::atomic::AtomicUsize,
 	/// end of the last packet handed out
 	decoded_upto: std::sync::atomic::AtomicUsize,
+	/// number of calls of `seek` so far (the one made when the sound is created included)
+	seeks: std::sync::atomic::AtomicUsize,
 }
 impl MediumCtl {
 	fn new(slow_packet_at: Option<usize>, displace_to: usize) -> std::sync::Arc<MediumCtl> {
@@ -1676,6 +1678,7 @@ impl MediumCtl {
 			displace_to,
 			seek_faults: Default::default(),
 			decoded_upto: Default::default(),
+			seeks: Default::default(),
 		})
 	}
 }
@@ -1715,6 +1718,7 @@ impl kira::sound::streaming::Decoder for FileDecoder {
 	}
 	fn seek(&mut self, index: usize) -> Result<usize, MediumError> {
 		use std::sync::atomic::Ordering::SeqCst;
+		self.ctl.seeks.fetch_add(1, SeqCst);
 		if self.ctl.seek_fault_armed.swap(false, SeqCst) {
 			// the reader was repositioned (as a bisecting container reader does) before the fault was met
 			self.next = self.ctl.displace_to.min(self.audio.len());
@@ -2020,6 +2024,299 @@ fn check_seek_fault(s: &mut Session, n: usize, target: usize, displace_to: usize
 	}
 }
 
+// ------------------------------------------------------------------------------------------
+// RELATIVE SEEKS.  "streaming the same file yields the same frames as loading it ... after any
+// sequence of seeks": `seek_by(d)` on a sound that has been playing for a while (its decoder a full
+// ring -- 16384 frames -- ahead of what is heard) must continue d after the frame that was PLAYING,
+// as it does for the loaded sound, not d after the frame the decoder had got to.
+// ------------------------------------------------------------------------------------------
+struct SeekByRun {
+	out: Vec<(f32, f32)>,
+	issued_at: usize,
+	/// frames the decoder was ahead of the start position when the command was issued (conforming decoder only)
+	decoded_upto: Option<usize>,
+	picked_up: Option<bool>,
+	stopped: bool,
+	error: Option<String>,
+	state: String,
+}
+/// Streams the index-coded file (`via_file`: the WAV bytes through symphonia, else a conforming decoder
+/// over the loaded frames) from `start`, renders `warm` callbacks, lets the decoder fill its ring,
+/// issues `seek_by(d frames)`, and renders until everything buffered before the seek has played out.
+fn seek_by_run(bytes: &[u8], stat: &[(f32, f32)], sr: u32, start: usize, warm: usize, d: i64, via_file: bool) -> Option<Result<SeekByRun, String>> {
+	use std::sync::atomic::Ordering::SeqCst;
+	let audio = frames_of(stat);
+	let b = bytes.to_vec();
+	with_watchdog(60, move || {
+		let n = audio.len();
+		let ctl = MediumCtl::new(None, 0);
+		let mut m = simple_manager(sr, CH);
+		let mut r = SeekByRun { out: vec![], issued_at: 0, decoded_upto: None, picked_up: None, stopped: false, error: None, state: String::new() };
+		enum H {
+			File(kira::sound::streaming::StreamingSoundHandle<FromFileError>),
+			Dec(kira::sound::streaming::StreamingSoundHandle<MediumError>),
+		}
+		let mut h = if via_file {
+			let data = match StreamingSoundData::from_cursor(Cursor::new(b)) {
+				Ok(d) => d,
+				Err(e) => {
+					r.state = format!("from_cursor failed: {}", e);
+					return r;
+				}
+			};
+			match m.play(data.start_position(PlaybackPosition::Samples(start))) {
+				Ok(h) => H::File(h),
+				Err(_) => {
+					r.state = "play() failed".into();
+					return r;
+				}
+			}
+		} else {
+			let dec = FileDecoder { audio: audio.clone(), sr, next: 0, ctl: ctl.clone() };
+			match m.play(StreamingSoundData::from_decoder(dec).start_position(PlaybackPosition::Samples(start))) {
+				Ok(h) => H::Dec(h),
+				Err(_) => {
+					r.state = "play() failed".into();
+					return r;
+				}
+			}
+		};
+		let state = |h: &H| match h {
+			H::File(h) => h.state(),
+			H::Dec(h) => h.state(),
+		};
+		let full = (start + 16384).min(n);
+		let wait_full = |ctl: &MediumCtl| {
+			if via_file {
+				std::thread::sleep(Duration::from_millis(40));
+			} else {
+				let t0 = Instant::now();
+				while ctl.decoded_upto.load(SeqCst) < full && t0.elapsed() < Duration::from_secs(10) {
+					std::thread::sleep(Duration::from_micros(500));
+				}
+				std::thread::sleep(Duration::from_millis(5));
+			}
+		};
+		wait_full(&ctl);
+		let render = |m: &mut Mgr, r: &mut SeekByRun| -> bool {
+			let c = m.backend_mut().callback_stereo(CH);
+			r.out.extend(c.iter().map(|f| (f.left, f.right)));
+			c.iter().all(|f| f.left == 0.0 && f.right == 0.0)
+		};
+		let mut since_pause = 0;
+		for _ in 0..warm {
+			since_pause += CH;
+			if since_pause >= 2048 {
+				since_pause = 0;
+				std::thread::sleep(Duration::from_micros(2000));
+			}
+			render(&mut m, &mut r);
+		}
+		// the decoder thread refills its ring: it is as far ahead of playback as it ever gets
+		std::thread::sleep(Duration::from_millis(if via_file { 40 } else { 25 }));
+		if !via_file {
+			r.decoded_upto = Some(ctl.decoded_upto.load(SeqCst));
+		}
+		let seeks0 = ctl.seeks.load(SeqCst);
+		let amount = d as f64 / sr as f64;
+		match &mut h {
+			H::File(h) => h.seek_by(amount),
+			H::Dec(h) => h.seek_by(amount),
+		}
+		r.issued_at = r.out.len();
+		// the decoder thread looks at its commands once there is room in the ring again: render slowly
+		// until it has picked the command up (at most 4 callbacks)
+		for _ in 0..4 {
+			render(&mut m, &mut r);
+			let t0 = Instant::now();
+			let limit = Duration::from_millis(if via_file { 40 } else { 2000 });
+			while t0.elapsed() < limit {
+				if !via_file && ctl.seeks.load(SeqCst) > seeks0 {
+					break;
+				}
+				std::thread::sleep(Duration::from_micros(500));
+			}
+			if !via_file && ctl.seeks.load(SeqCst) > seeks0 {
+				break;
+			}
+		}
+		if !via_file {
+			r.picked_up = Some(ctl.seeks.load(SeqCst) > seeks0);
+		}
+		let goal = r.out.len() + 16384 + 4 * PKT;
+		let t1 = Instant::now();
+		while r.out.len() < goal && t1.elapsed() < Duration::from_secs(20) {
+			since_pause += CH;
+			if since_pause >= 2048 {
+				since_pause = 0;
+				std::thread::sleep(Duration::from_micros(2000));
+			}
+			let silent = render(&mut m, &mut r);
+			if state(&h) == PlaybackState::Stopped {
+				r.stopped = true;
+				break;
+			}
+			if silent {
+				std::thread::sleep(Duration::from_micros(300));
+			}
+		}
+		r.state = format!("{:?}", state(&h));
+		if !r.stopped {
+			let tw = Tween { duration: Duration::ZERO, ..Default::default() };
+			match &mut h {
+				H::File(h) => h.stop(tw),
+				H::Dec(h) => h.stop(tw),
+			}
+			for _ in 0..2000 {
+				let _ = m.backend_mut().callback_stereo(CH);
+				if state(&h) == PlaybackState::Stopped {
+					break;
+				}
+			}
+		}
+		r.error = match &mut h {
+			H::File(h) => h.pop_error().map(|e| format!("{}", e)),
+			H::Dec(h) => h.pop_error().map(|e| format!("{:?}", e)),
+		};
+		r
+	})
+}
+/// The monitor.  `n` frames, index-coded; the play position when the command is issued is the frame after
+/// the last one heard; the sound must go on, gap-free, from (a play position it had between the callback
+/// before the call and 4 callbacks after it) + d -- where the loaded sound goes on from (the play
+/// position at the next callback) + d.  Everything buffered before the seek may play out first.
+fn check_seek_by(s: &mut Session, n: usize, start: usize, warm: usize, d: i64, via_file: bool) {
+	let sr = 48000;
+	let bytes = encode(Fmt::I16, 2, sr, &index_coded(n));
+	let stat = match load_static(&bytes) {
+		Load::Ok { frames, .. } if frames.len() == n => frames,
+		g => {
+			s.fail(format!("index-coded WAV i16 stereo {} frames", n), format!("loading gave {}", g.short()), None);
+			return;
+		}
+	};
+	let desc = format!(
+		"index-coded WAV i16 stereo rate={} frames={} (fnv {:#x}), streamed {} from frame {} on a device at the file's rate ({} frames per callback); after {} callbacks ({} frames heard) and a pause that lets the decoder thread fill its ring, seek_by({} frames = {:?} s) is issued on the handle; rendering goes on for 16384 + 4*1152 frames",
+		sr,
+		n,
+		fnv(&bytes),
+		if via_file { "with StreamingSoundData::from_cursor (symphonia)" } else { "through a conforming decoder over the loaded frames (packets of 1152)" },
+		start,
+		CH,
+		warm,
+		warm * CH,
+		d,
+		d as f64 / sr as f64
+	);
+	s.eval_only(if via_file { "stream_seek_by_file" } else { "stream_seek_by_decoder" });
+	let r = match seek_by_run(&bytes, &stat, sr, start, warm, d, via_file) {
+		Some(Ok(r)) => r,
+		Some(Err(m)) => {
+			s.fail(desc, format!("PANIC({})", m), None);
+			return;
+		}
+		None => {
+			s.fail(desc, "HANG: the scenario did not finish within 60 s".into(), None);
+			return;
+		}
+	};
+	if r.out.is_empty() {
+		s.fail(desc, format!("the sound could not be played: {}", r.state), None);
+		return;
+	}
+	if let Some(e) = &r.error {
+		s.fail(desc, format!("a relative seek inside a healthy file produced a decoder error: {}", e), None);
+		return;
+	}
+	// every frame heard is a frame of the file or silence (no invented samples)
+	let lookup: std::collections::HashMap<(u32, u32), usize> = stat.iter().enumerate().map(|(i, f)| ((canon(f.0), canon(f.1)), i)).collect();
+	let mut heard: Vec<(usize, usize)> = vec![]; // (offset in the output, index in the file)
+	for (k, f) in r.out.iter().enumerate() {
+		let c = (canon(f.0), canon(f.1));
+		if c == (0, 0) {
+			continue;
+		}
+		match lookup.get(&c) {
+			Some(&i) => heard.push((k, i)),
+			None => {
+				s.fail(desc, format!("output frame {} = ({:?}, {:?}) is not a frame of the file", k, f.0, f.1), None);
+				return;
+			}
+		}
+	}
+	// before the call: consecutive from `start`
+	let before: Vec<&(usize, usize)> = heard.iter().filter(|x| x.0 < r.issued_at).collect();
+	for (j, x) in before.iter().enumerate() {
+		if x.1 != start + j {
+			s.fail(desc, format!("before any seek, the {}th audible frame (output offset {}) is frame {} of the file, expected {}", j, x.0, x.1, start + j), None);
+			return;
+		}
+	}
+	if before.is_empty() {
+		s.notes.push(format!("seek_by scenario (start {}, warm {}): nothing was heard before the command; not evaluated", start, warm));
+		s.count("stream_seek_by_not_evaluated");
+		return;
+	}
+	let base = start + before.len(); // the play position at the next callback: where a loaded sound measures from
+	let first_after = before.len();
+	// the jump
+	let jump = (first_after.max(1)..heard.len()).find(|&j| heard[j].1 != heard[j - 1].1 + 1);
+	let ahead = match r.decoded_upto {
+		Some(u) => format!("; the decoder had delivered up to frame {} when the command was issued ({} ahead of playback)", u, u as i64 - base as i64),
+		None => String::new(),
+	};
+	let j = match jump {
+		Some(j) => j,
+		None => {
+			s.fail(
+				desc,
+				format!(
+					"the relative seek never became audible: playback went on from frame {} to frame {} without a jump (a loaded sound continues at frame {}){}; state {}, picked up by the decoder: {:?}",
+					base,
+					heard.last().unwrap().1,
+					base as i64 + d,
+					ahead,
+					r.state,
+					r.picked_up
+				),
+				None,
+			);
+			return;
+		}
+	};
+	let landed = heard[j].1 as i64;
+	let off = landed - d - base as i64;
+	// gap-free afterwards (up to the end of what was rendered)
+	if let Some(k) = (j + 1..heard.len()).find(|&k| heard[k].1 != heard[k - 1].1 + 1) {
+		s.fail(desc, format!("after the seek landed on frame {} playback is not consecutive: output offset {} is frame {} after frame {}", landed, heard[k].0, heard[k].1, heard[k - 1].1), None);
+		return;
+	}
+	if off < -(CH as i64) || off > 4 * CH as i64 {
+		s.fail(
+			desc,
+			format!(
+				"STREAMING != LOADING after a relative seek: frame {} was the next to be played when seek_by({}) was issued (output offset {}), a loaded sound given the same commands continues at frame {}; the streamed sound played on up to frame {} and then continued at frame {} = {} + {} + {}: the seek was measured from a position {} frames away from any position the sound was playing around the call (allowed: {} before .. {} after){}",
+				base,
+				d,
+				r.issued_at,
+				base as i64 + d,
+				heard[j - 1].1,
+				landed,
+				base,
+				d,
+				off,
+				off,
+				CH,
+				4 * CH,
+				ahead
+			),
+			None,
+		);
+		return;
+	}
+	s.count(if off == 0 { "stream_seek_by_exact" } else { "stream_seek_by_within_callbacks" });
+}
+
 pub fn run(args: &Args) {
 	let mut rng = Rng::new(args.seed ^ 0xC18);
 	let mul = args.budget_mul * if args.thorough { 8 } else { 1 };
@@ -2034,6 +2331,13 @@ pub fn run(args: &Args) {
 	s.keep_case_text = true;
 	let t_start = Instant::now();
 	let lap = |what: &str| eprintln!("[C18 {:7.2}s] {}", t_start.elapsed().as_secs_f64(), what);
+
+	// ---------- (0) relative seeks on a stream that is under way: directed, the same on every run ----
+	check_seek_by(&mut s, 60_000, 0, 8, 20_000, false);
+	check_seek_by(&mut s, 60_000, 40_000, 16, -30_000, false);
+	check_seek_by(&mut s, 60_000, 5_000, 12, 25_000, true);
+	check_seek_by(&mut s, 60_000, 30_000, 3, -2_000, true);
+	lap("relative seeks (directed) done");
 
 	// ---------- (a) valid files, every encoding ------------------------------------------------
 	let mut small_valid: Vec<(Fmt, u16, u32, Vec<i128>, Vec<u8>)> = vec![];
@@ -2222,6 +2526,26 @@ pub fn run(args: &Args) {
 	check_seek_fault(&mut s, 60_000, 40_000, 0, true);
 	check_seek_fault(&mut s, 60_000, 30_000, 39 * PKT, false);
 	lap("medium faults (slow last packet, failed seek) done");
+	// relative seeks, generated: start, time under way, amount (forwards / backwards; the landing stays
+	// inside the file and away from the frame the ring ends at, so that the seek is audible as a jump)
+	for k in 0..(6 * mul) {
+		let n = 90_000usize;
+		let start = rng.below(40_000) as usize;
+		let warm = 1 + rng.below(48) as usize;
+		let pos = (start + warm * CH) as i64;
+		let d = loop {
+			let mag = 1_000 + rng.below(34_000) as i64;
+			let d = if rng.below(2) == 0 { mag } else { -mag };
+			if (15_000..=17_500).contains(&d) {
+				continue;
+			}
+			if pos + d >= 1_000 && pos + d + 25_000 < n as i64 {
+				break d;
+			}
+		};
+		check_seek_by(&mut s, n, start, warm, d, k % 3 == 2);
+	}
+	lap("relative seeks (generated) done");
 	// the assets shipped with the repository
 	let assets = ["sine.wav", "blip.ogg", "score.ogg", "drums.ogg", "dynamic/arp.ogg", "dynamic/bass.ogg", "dynamic/drums.ogg", "dynamic/lead.ogg", "dynamic/pad.ogg"];
 	for (ai, a) in assets.iter().enumerate() {
